@@ -302,7 +302,149 @@ def equality_and_transpose_spellings(ctx, seed):
             ctx.count('eqt:same:' + kind + ':' + sp)
 
 
+def integer_bound_spellings(ctx, seed):
+    """integer programs whose upper bounds (fractional, e.g. budget/price) are written as bound objects, as linear constraints or as an
+    infinity-norm: the same optimum - judged against enumeration of the grid - on the default interface and on OR-Tools"""
+    import itertools
+    from rsome import ro, ort_solver
+    r = np.random.default_rng(seed)
+    n = int(r.integers(2, 4))
+    A = r.integers(1, 9, (2, n)).astype(float); b = (A.sum(axis=1) * float(r.choice([0.8, 1.0, 1.4]))).round(0)
+    c = r.integers(1, 5, n).astype(float)
+    ub = r.choice([1.5, 2.5, 4.7, 3.0, 0.6], n).astype(float)
+    pts = [np.array(p, dtype=float) for p in itertools.product(range(0, 6), repeat=n)]
+    best = max(float(c @ p) for p in pts if np.all(A @ p <= b + 1e-9) and np.all(p <= ub))
+    for solver, sname in ((None, 'default'), (ort_solver, 'ortools')):
+        for form in ('bound objects', 'linear constraints', 'inf-norm'):
+            ctx.search_cases += 1; ctx.evaluations += 1
+            case = {"intbound_seed": seed, "form": form, "interface": sname}
+            try:
+                with C.quiet():
+                    m = ro.Model(); x = m.dvar(n, vtype='I')
+                    m.max(c @ x); m.st(A @ x <= b, x >= 0)
+                    if form == 'bound objects':
+                        m.st(x <= ub)
+                    elif form == 'linear constraints':
+                        m.st(x - ub <= 0)
+                    else:
+                        m.st(abs(x - ub / 2) <= ub / 2)
+                    (m.solve(display=False) if solver is None else m.solve(solver, display=False))
+                    val = float(m.get())
+            except Exception as ex:
+                ctx.hit('integer-bounds-raises:' + form + ':' + type(ex).__name__, {"error": str(ex)[:160]}, case); continue
+            if abs(val - best) > 1e-6 * (1 + abs(best)):
+                ctx.hit('integer-bounds-spelling-changes-optimum:' + form + ':' + sname, {"reported": val, "enumeration": best, "ub": ub.tolist(), "A": A.tolist(), "b": b.tolist(), "c": c.tolist()}, case)
+            else:
+                ctx.count('intbounds-same:' + sname)
+
+
+def set_collection_spellings(ctx, seed):
+    """a set given as one list, as a tuple, or as a generator over the same constraints means the same set: dro constraints without an explicit random
+    term (an adaptive decision only) in models with several scenarios, and piecewise constraints in ro models"""
+    import rsome as rso
+    from rsome import ro, dro, E
+    r = np.random.default_rng(seed)
+    hi = float(r.choice([1.0, 2.0])); mean = float(r.choice([0.25, 0.5])) * hi; S = int(r.choice([1, 2, 3]))
+    kind = str(r.choice(['dro-adaptive', 'ro-piecewise', 'dro-piecewise']))
+    vals = {}
+    for spell in ('list', 'tuple', 'generator'):
+        ctx.search_cases += 1; ctx.evaluations += 1
+        case = {"setcoll_seed": seed, "kind": kind, "spelling": spell}
+        wrap = {'list': list, 'tuple': tuple, 'generator': (lambda cs: (k for k in cs))}[spell]
+        try:
+            with C.quiet():
+                if kind == 'dro-adaptive':
+                    m = dro.Model(S); y = m.dvar(); z = m.rvar(); y.adapt(z)
+                    for s_ in range(S):
+                        y.adapt(s_)
+                    f = m.ambiguity(); f.suppset(z >= 0, z <= hi); f.exptset(E(z) == mean)
+                    m.minsup(E(y), f); m.st((y >= 0).forall(wrap([z >= 0, z <= hi])), y >= hi - z)
+                elif kind == 'ro-piecewise':
+                    m = ro.Model(); x = m.dvar(); t = m.dvar(); z = m.rvar()
+                    m.min(t); m.st((rso.maxof(x - z, 2 * z - x) <= t).forall(wrap([z >= 0, z <= hi])))
+                else:
+                    m = dro.Model(S); x = m.dvar(); t = m.dvar(); z = m.rvar()
+                    f = m.ambiguity(); f.suppset(z >= 0, z <= hi)
+                    m.minsup(t, f); m.st((rso.maxof(x - z, 2 * z - x) <= t).forall(wrap([z >= 0, z <= 0.5 * hi])))
+                m.solve(display=False)
+                try:
+                    vals[spell] = float(m.get())
+                except RuntimeError:
+                    vals[spell] = None
+        except Exception as ex:
+            ctx.hit('set-collection-raises:' + kind + ':' + spell + ':' + type(ex).__name__, {"error": str(ex)[:160]}, case); continue
+    base = vals.get('list')
+    for spell, v in vals.items():
+        case = {"setcoll_seed": seed, "kind": kind, "spelling": spell}
+        if (v is None) != (base is None) or (v is not None and abs(v - base) > 1e-6 * (1 + abs(base))):
+            ctx.hit('set-collection-spelling-changes-optimum:' + kind + ':' + spell, {"list": base, spell: v, "scenarios": S}, case)
+        else:
+            ctx.count('setcoll-same:' + kind)
+
+
+def declaration_order(ctx, seed):
+    """a decision variable declared AFTER constraints have been formed (deterministic, robust, convex ones) - the usual epigraph idiom - gives
+    the same optimum as declaring everything first, for an ro model and for the same model as a single-scenario dro model"""
+    import rsome as rso
+    from rsome import ro, dro
+    r = np.random.default_rng(seed)
+    a = float(r.choice([1.0, 2.0])); b = float(r.choice([0.0, 1.0])); early = [str(k) for k in r.choice(['det', 'robust', 'convex', 'bounds', 'randcoef', 'expect'], int(r.integers(1, 5)), replace=False)]
+    late_obj = bool(r.random() < 0.5)
+    vals = {}
+    for front in ('ro', 'dro1'):
+        for inter in (False, True):
+            ctx.search_cases += 1; ctx.evaluations += 1
+            case = {"declorder_seed": seed, "front": front, "interleaved": inter, "early": early}
+            try:
+                with C.quiet():
+                    m = ro.Model() if front == 'ro' else dro.Model(1)
+                    x = m.dvar(2); z = m.rvar()
+                    if front != 'ro':
+                        f = m.ambiguity(); f.suppset(z >= 0, z <= 1)      # (a dro model wants its ambiguity set before any constraint)
+                    if not inter:
+                        y = m.dvar(2); t = m.dvar()
+                    if 'bounds' in early:
+                        m.st(x >= 0)
+                    if 'det' in early:
+                        m.st(np.array([[1.0, 1.0]]) @ x >= b)
+                    if 'robust' in early:
+                        m.st(x[0] >= a * z - 0.5)
+                    if 'convex' in early:
+                        m.st(rso.norm(x, 2) <= 6)
+                    if 'randcoef' in early:
+                        m.st(x[0] * z <= 3, x[0] >= 0.25)
+                    if 'expect' in early:           # sup over all distributions on the support = worst case over the support
+                        m.st((x[1] * z >= -1) if front == 'ro' else (rso.E(x[1] * z) >= -1))
+                    if inter:
+                        y = m.dvar(2); t = m.dvar()
+                    m.st(y >= x + 1, y[1] >= z + x[1], x >= -1)
+                    obj = y.sum() + x[0]
+                    if late_obj:
+                        m.st(t >= obj); obj = t
+                    if front == 'ro':
+                        m.minmax(obj, z >= 0, z <= 1)
+                    else:
+                        m.minsup(obj, f)
+                    m.solve(display=False)
+                    vals[(front, inter)] = float(m.get())
+            except Exception as ex:
+                ctx.hit('declaration-order-raises:' + front + ':' + type(ex).__name__, {"error": str(ex)[:160]}, case)
+    base = vals.get(('ro', False))
+    for key, v in vals.items():
+        case = {"declorder_seed": seed, "front": key[0], "interleaved": key[1], "early": early}
+        if base is not None and abs(v - base) > 1e-6 * (1 + abs(base)):
+            ctx.hit('declaration-order-changes-optimum:' + key[0], {"reference": base, "value": v}, case)
+        else:
+            ctx.count('declorder-same:' + key[0])
+
+
 def run(ctx):
+    for k in range(ctx.n(12, 150)):
+        declaration_order(ctx, int(ctx.rng.integers(2 ** 31)))
+    for k in range(ctx.n(12, 150)):
+        set_collection_spellings(ctx, int(ctx.rng.integers(2 ** 31)))
+    for k in range(ctx.n(40, 600)):
+        integer_bound_spellings(ctx, int(ctx.rng.integers(2 ** 31)))
     for k in range(ctx.n(16, 200)):
         equality_and_transpose_spellings(ctx, int(ctx.rng.integers(2 ** 31)))
     for k in range(ctx.n(12, 150)):
@@ -344,6 +486,18 @@ def replay(rp):
         equality_and_transpose_spellings(ctx, rp['case']['eqt_seed'])
         return {"hits": [(h['key'], h['detail']) for h in ctx.hits], "fails": bool(ctx.hits)}
     c = rp['case']
+    if 'declorder_seed' in c:
+        ctx = C.Ctx('C15', 'quick', 0)
+        declaration_order(ctx, c['declorder_seed'])
+        return {"hits": [(h['key'], h['detail']) for h in ctx.hits], "fails": bool(ctx.hits)}
+    if 'setcoll_seed' in c:
+        ctx = C.Ctx('C15', 'quick', 0)
+        set_collection_spellings(ctx, c['setcoll_seed'])
+        return {"hits": [(h['key'], h['detail']) for h in ctx.hits], "fails": bool(ctx.hits)}
+    if 'intbound_seed' in c:
+        ctx = C.Ctx('C15', 'quick', 0)
+        integer_bound_spellings(ctx, c['intbound_seed'])
+        return {"hits": [(h['key'], h['detail']) for h in ctx.hits], "fails": bool(ctx.hits)}
     if 'spelling_seed' in c:
         ctx = C.Ctx('C15', 'quick', 0)
         dro_expectation_spellings(ctx, c['spelling_seed'])
